@@ -17,8 +17,9 @@ package key
 //@   ensures [C03:absent-index-yields-nil] n == nil ==> (forall k int :: 0 <= k && k < len(g.Nodes) ==> g.Nodes[k].Index != i)
 
 //@ func (*Group).Len(g) (n)
-//@   props C03
+//@   props C03 C20
 //@   modifies nothing
+//@   ensures [C03,C20:len-is-the-node-count] n == len(g.Nodes)
 
 // ---- C15 / C20 / C13: saving key material ---------------------------------------------------------------
 
@@ -40,3 +41,62 @@ package key
 //@ func (*fileStore).SaveShare(f, share) (err)
 //@   props C15
 //@   call Save#0: assert [C15:private-share-is-saved-securely] arg0 == f.shareFile && arg2
+
+// ---- C20: decode-side checks of group encodings -----------------------------------------------------------
+
+//@ extern github.com/drand/kyber/share/dkg.MinimumT(n) (r)
+//@   trusted dependency: body is (n >> 1) + 1 (kyber v1.3.2 share/dkg/dkg.go)
+//@   modifies nothing
+//@   ensures n >= 0 ==> r == n / 2 + 1
+
+//@ pure (github.com/drand/drand/v2/common/key.protoIdentity)
+//@ pure net.SplitHostPort
+
+//@ func StringToPoint(g, s) (p, err)
+//@   props C20
+//@   modifies nothing
+
+//@ func IdentityFromProto(n, targetScheme) (id, err)
+//@   props C20
+//@   modifies nothing
+//@   ensures [C20:decoded-identity-is-bound-to-the-requested-scheme] err == nil ==> id != nil && isnew(id) && id.Scheme == targetScheme && targetScheme != nil
+
+//@ func NodeFromProto(n, targetScheme) (node, err)
+//@   props C20
+//@   modifies nothing
+//@   ensures [C20:decoded-node-carries-its-index] err == nil ==> node != nil && isnew(node) && node.Index == n.Index && node.Identity != nil && node.Identity.Scheme == targetScheme
+
+//@ func (*Identity).FromTOML(i, t) (err)
+//@   props C20
+//@   modifies i.Scheme, i.Key, i.Addr, i.Signature
+//@   ensures [C20:decoded-identity-scheme-is-known] err == nil ==> i.Scheme != nil && crypto.knownScheme(i.Scheme.Name) && i.Addr == as(t, "*PublicTOML").Address
+
+//@ func (*Node).FromTOML(n, t) (err)
+//@   props C20
+//@   modifies n.Index, n.Identity, n.Identity.Scheme, n.Identity.Key, n.Identity.Addr, n.Identity.Signature
+//@   ensures [C20:decoded-node-carries-its-index] err == nil ==> n.Index == as(t, "*NodeTOML").Index && n.Identity != nil
+//@   ensures [C20:identity-is-reused-or-new] n.Identity == old(n.Identity) || isnew(n.Identity)
+
+//@ func (*DistPublic).FromTOML(d, sch, i) (err)
+//@   props C20
+//@   modifies d.Coefficients
+//@   ensures [C20:decoded-public-key-has-one-point-per-coefficient] err == nil ==> len(d.Coefficients) == len(as(i, "*DistPublicTOML").Coefficients)
+
+//@ func (*Group).FromTOML(g, i) (err)
+//@   props C20
+//@   modifies g.Threshold, g.Scheme, g.Nodes, g.PublicKey, g.Period, g.CatchupPeriod, g.GenesisTime, g.TransitionTime, g.GenesisSeed, g.ID
+//@   loop 0: invariant [C20:node-decode-loop-keeps-the-node-count] len(g.Nodes) == len(gt.Nodes) && g.Threshold == gt.Threshold && g.Scheme == sch
+//@   ensures [C20:decoded-group-file-threshold-is-in-range] err == nil && i != nil ==> len(g.Nodes) / 2 + 1 <= g.Threshold && g.Threshold <= len(g.Nodes)
+//@   ensures [C20:decoded-group-file-scheme-is-known] err == nil && i != nil ==> g.Scheme != nil && crypto.knownScheme(g.Scheme.Name) && (gt.SchemeID != "" ==> g.Scheme.Name == gt.SchemeID)
+//@   ensures [C20:decoded-group-file-carries-its-fields] err == nil && i != nil ==> g.Threshold == gt.Threshold && g.GenesisTime == gt.GenesisTime && len(g.Nodes) == len(gt.Nodes) && (gt.TransitionTime != 0 ==> g.TransitionTime == gt.TransitionTime) && g.ID == common.canonID(gt.ID)
+
+//@ func GroupFromProto(g, targetScheme) (group, err)
+//@   props C20
+//@   requires g != nil
+//@   modifies nothing
+//@   loop 0: invariant [C20:node-list-is-built-in-a-new-array] isnew(nodes)
+//@   loop 1: invariant [C20:coefficient-list-is-built-in-a-new-array] isnew(dist.Coefficients)
+//@   ensures [C20:decoded-group-packet-threshold-is-at-least-the-minimum] err == nil ==> group != nil && len(group.Nodes) / 2 + 1 <= group.Threshold
+//@   ensures [C20:decoded-group-packet-threshold-is-at-most-the-node-count] err == nil ==> group.Threshold <= len(group.Nodes)
+//@   ensures [C20:decoded-group-packet-scheme-is-known] err == nil ==> group.Scheme != nil && crypto.knownScheme(group.Scheme.Name) && group.Scheme.Name == g.SchemeID
+//@   ensures [C20:decoded-group-packet-carries-its-fields] err == nil ==> group.Threshold == g.Threshold && (g.GenesisTime < 9223372036854775808 ==> group.GenesisTime == g.GenesisTime) && group.Period == g.Period * 1000000000 && group.CatchupPeriod == g.CatchupPeriod * 1000000000 && (g.TransitionTime < 9223372036854775808 ==> group.TransitionTime == g.TransitionTime) && (g.Metadata != nil ==> group.ID == g.Metadata.BeaconID)
